@@ -30,6 +30,7 @@ macro_rules! hp {
         #[kani::stub(alloc::alloc::realloc_nonnull, realloc_stub)]
         #[kani::stub(std::alloc::handle_alloc_error, hae_stub)]
         fn $name() {
+            crate::ghost::arm();
             $body
         }
     };
@@ -193,6 +194,7 @@ macro_rules! af {
         #[kani::stub(alloc::alloc::realloc_nonnull, realloc_stub)]
         #[kani::stub(std::alloc::handle_alloc_error, hae_stub_cov)]
         fn $name() {
+            crate::ghost::arm();
             alloc_failure($n, || {
                 let r = $ctor;
                 forget(r);
